@@ -1,5 +1,6 @@
 import I2N.Lemmas.NetReattach
 import I2N.Lemmas.NetGen
+import I2N.Extracted.GenNetwork
 /-!
 # C18 — The vm network model stays consistent and its address arithmetic is exact
 
@@ -534,5 +535,129 @@ example : RangeIsDict (fromInterface { ip := 167837954, netmask := 4294967040, h
   fromInterface_rangeIsDict _
 
 end TranslatorTie
+
+section TranslatorTieNetwork
+open I2N.Extracted.GenNet I2N.Extracted.GenNetwork
+
+/-- the key just stored is present -/
+theorem hasKey_aset_self {α : Type} (k : Nat) (v : α) (l : List (Nat × α)) : hasKey k (aset k v l) = true := by
+  rw [← alookup_isSome_iff_hasKey, alookup_aset_self]; rfl
+
+/-- two stores into the same interface object are one store -/
+theorem setIface_setIface (s : Net) (i : Nat) (f g : Iface → Iface) :
+    (s.setIface i f).setIface i g = s.setIface i (fun x => g (f x)) := by
+  unfold Net.setIface
+  congr 1
+  funext j
+  by_cases h : j = i <;> simp [h]
+
+/-- the proxy selection of `reattach_interface` (`proxy_nic != "" and proxy_nic != server_nic`) is the model's
+    `if p = some r then none else p` -/
+theorem reattachProxy_matches_source (r : Nat) (p : Option Nat) :
+    (if genReattachProxySelected r p then p else none) = (if p = some r then none else p) := by
+  unfold genReattachProxySelected
+  cases p with
+  | none => simp [Id.run]
+  | some q => by_cases h : q = r <;> simp [Id.run, h] <;> (show (!(q == r)) = true) <;> simp [h]
+
+/-- the attach part of `reattach_interface` — detach from the OLD netconfig (`KeyError` when the address is not
+    registered there), allocate in the new one, store the address, `add_interface` — is the first half of the model's
+    `reattach`, given the two netconfig references -/
+theorem reattachAttach_eq (s : Net) (c tn on : Nat) (hc : (s.iface c).nc = some on) :
+    genReattachAttach c tn s =
+      (if !hasKey (s.iface c).ip (s.nc on).ifs then .error .keyError else
+        let s1 := s.setNc on (fun k => { k with ifs := adel (s.iface c).ip k.ifs })
+        match allocate (s1.nc tn) with
+        | .error e => .error e
+        | .ok (a, k') =>
+          (addInterface ((s1.setNc tn (fun _ => k')).setIface c (fun f => { f with ip := a })) tn c).map
+            (fun s' => ((), s'))) := by
+  unfold genReattachAttach
+  simp only [ncOf, ipOf, delIfs, allocM, setIp, bind, StateT.bind, pure, StateT.pure, Except.bind, Except.pure, hc]
+  by_cases hk : hasKey (s.iface c).ip (s.nc on).ifs = true
+  · simp only [hk, Bool.not_true, Bool.false_eq_true, if_false]
+    cases allocate ((s.setNc on fun k => { k with ifs := adel (s.iface c).ip k.ifs }).nc tn) with
+    | error e => rfl
+    | ok q =>
+      obtain ⟨a, k'⟩ := q
+      simp only [addInterface_matches_source]
+      cases addInterface _ tn c <;> rfl
+  · have hk' : hasKey (s.iface c).ip (s.nc on).ifs = false := by simpa using hk
+    simp only [hk', Bool.not_false, if_true]
+
+/-- `VMNetwork.reattach_interface` (avocado_i2n/vmnet/network.py): the generated definition — pinned head (the nic
+    roles resolved to the interface objects `c`, `r`), translated proxy selection, translated attach part (detach from
+    the old netconfig, allocate in the new one, `add_interface`), translated proxy part, pinned tail — is the model's
+    `reattach`, for every network state, every pair of interfaces and every proxy nic (without and with proxy): same
+    final registry, same exception. -/
+theorem reattach_matches_source (s : Net) (c r : Nat) (p : Option Nat) :
+    genReattach c r p s = (reattach s c r p).map (fun s' => ((), s')) := by
+  unfold genReattach reattach
+  simp only [reattachProxy_matches_source]
+  generalize (if p = some r then none else p) = p'
+  simp only [bind, StateT.bind, Except.bind]
+  cases hr : (s.iface r).nc with
+  | none => simp only [ncOf, hr]; rfl
+  | some tn =>
+    simp only [ncOf, hr]
+    cases hc : (s.iface c).nc with
+    | none =>
+      simp only [genReattachAttach, ncOf, hc, bind, StateT.bind, Except.bind]; rfl
+    | some on =>
+      rw [reattachAttach_eq s c tn on hc]
+      by_cases hk : hasKey (s.iface c).ip (s.nc on).ifs = true
+      · simp only [hk, Bool.not_true, Bool.false_eq_true, if_false]
+        cases allocate ((s.setNc on fun k => { k with ifs := adel (s.iface c).ip k.ifs }).nc tn) with
+        | error e => rfl
+        | ok q =>
+          obtain ⟨a, k'⟩ := q
+          simp only
+          cases hadd : addInterface (((s.setNc on fun k => { k with ifs := adel (s.iface c).ip k.ifs }).setNc tn
+              fun _ => k').setIface c fun f => { f with ip := a }) tn c with
+          | error e => rfl
+          | ok s3 =>
+            simp only [Except.map]
+            cases p' with
+            | none => rfl
+            | some pi =>
+              -- what `add_interface` left behind: the address of `c` is `a` and it is registered in `tn`
+              have h3 : (s3.iface c).ip = a ∧ hasKey a (s3.nc tn).ifs = true := by
+                unfold addInterface at hadd
+                simp only at hadd
+                split at hadd
+                · cases hadd
+                · cases hadd
+                  constructor
+                  · simp [Net.setIface, Net.setNc]
+                  · simp only [Net.setIface, Net.setNc, if_true]
+                    exact hasKey_aset_self _ _ _
+              simp only [genReattachProxyPart, ipOf, delIfs, setIp, setNcRef, ncOf, allocM, bind, StateT.bind, pure,
+                StateT.pure, Except.bind, Except.pure, h3.1, h3.2, Bool.not_true, Bool.false_eq_true, if_false]
+              generalize hs5 : ((s3.setNc tn fun k => { k with ifs := adel a k.ifs }).setIface r fun f =>
+                { f with ip := ((s3.setNc tn fun k => { k with ifs := adel a k.ifs }).iface pi).ip }) = s5
+              cases hp : (s5.iface pi).nc with
+              | none => rfl
+              | some pn =>
+                simp only
+                cases allocate (s5.nc pn) with
+                | error e => rfl
+                | ok q2 =>
+                  obtain ⟨a2, k2⟩ := q2
+                  have hpi : (((s5.setNc pn fun _ => k2).setIface c fun f => { f with ip := a2 }).iface pi).nc = some pn := by
+                    simp only [Net.setIface, Net.setNc]
+                    by_cases h : pi = c
+                    · simp only [h, if_true]; rw [← h]; exact hp
+                    · simp only [h, if_false]; exact hp
+                  simp only [hpi, setIface_setIface]
+      · have hk' : hasKey (s.iface c).ip (s.nc on).ifs = false := by simpa using hk
+        simp only [hk', Bool.not_false, if_true]
+        rfl
+
+/-- a concrete run through both translated parts: the selftest call with `proxy_nic="b1"` -/
+example : ∃ s s', reattach s 0 3 (some 2) = .ok s' ∧ genReattach 0 3 (some 2) s = .ok ((), s') := by
+  obtain ⟨s, s', _, _, h, _⟩ := witness_proxy_nic
+  exact ⟨s, s', h, by rw [reattach_matches_source, h]; rfl⟩
+
+end TranslatorTieNetwork
 
 end I2N.Props.C18
